@@ -626,9 +626,9 @@ var rates = []struct {
 func init() {
 	bfs.Register("c21", func() bfs.Scenario { return build() })
 	reg.Register(reg.Check{Property: "C21", Level: "model_checking", Run: func(run *ev.Run) {
-		depth, deadline := 5, 70*time.Second
+		depth, deadline := 4, 85*time.Second
 		if ev.Tier() == "thorough" {
-			depth, deadline = 7, 15*time.Minute
+			depth, deadline = 6, 15*time.Minute
 		}
 		cfg := bfs.Config{Scenario: "c21", MaxDepth: depth + 1, Deadline: deadline}
 		st := bfs.Explore(cfg, run)
